@@ -185,11 +185,26 @@ func kindsString(k map[string]bool) string {
 }
 
 type tableEntry struct {
-	Key     *types.Const
-	KeyVal  int64
-	Checker *types.Func
-	Proto   types.Type
-	Pos     token.Pos
+	Key      *types.Const
+	KeyVal   int64
+	Checker  *types.Func   // the (first) checker
+	Checkers []*types.Func // all checkers of the entry (one, or the elements of a checker list)
+	Multi    bool          // the entry holds a list of checkers
+	Proto    types.Type
+	Pos      token.Pos
+}
+
+// c03CheckerSigOf: the checker signature when t is a func type or a slice of a func type.
+func c03CheckerSigOf(t types.Type) *types.Signature {
+	switch u := t.Underlying().(type) {
+	case *types.Signature:
+		return u
+	case *types.Slice:
+		if sg, ok := u.Elem().Underlying().(*types.Signature); ok {
+			return sg
+		}
+	}
+	return nil
 }
 
 // findEventTable locates the package-level map keyed by EventType whose values carry a
@@ -224,7 +239,7 @@ func findEventTable(c *Ctx) (global *types.Var, entries []tableEntry, pos token.
 						}
 						hasFunc := false
 						for fi := 0; fi < st.NumFields(); fi++ {
-							if _, isSig := st.Field(fi).Type().Underlying().(*types.Signature); isSig {
+							if c03CheckerSigOf(st.Field(fi).Type()) != nil {
 								hasFunc = true
 							}
 						}
@@ -268,12 +283,31 @@ func findEventTable(c *Ctx) (global *types.Var, entries []tableEntry, pos token.
 									if ftype == nil {
 										continue
 									}
-									if _, isSig := ftype.Underlying().(*types.Signature); isSig {
-										switch v := ast.Unparen(val).(type) {
+									funcOf := func(e ast.Expr) *types.Func {
+										switch v := ast.Unparen(e).(type) {
 										case *ast.Ident:
-											te.Checker, _ = p.TypesInfo.Uses[v].(*types.Func)
+											f, _ := p.TypesInfo.Uses[v].(*types.Func)
+											return f
 										case *ast.SelectorExpr:
-											te.Checker, _ = p.TypesInfo.Uses[v.Sel].(*types.Func)
+											f, _ := p.TypesInfo.Uses[v.Sel].(*types.Func)
+											return f
+										}
+										return nil
+									}
+									if _, isSig := ftype.Underlying().(*types.Signature); isSig {
+										te.Checker = funcOf(val)
+										te.Checkers = append(te.Checkers, te.Checker)
+									} else if _, isSl := ftype.Underlying().(*types.Slice); isSl && c03CheckerSigOf(ftype) != nil {
+										// a list of checkers, all of which must accept
+										te.Multi = true
+										if lit, isLit := ast.Unparen(val).(*ast.CompositeLit); isLit {
+											for _, ce := range lit.Elts {
+												f := funcOf(ce)
+												te.Checkers = append(te.Checkers, f)
+												if te.Checker == nil {
+													te.Checker = f
+												}
+											}
 										}
 									} else if _, isI := ftype.Underlying().(*types.Interface); isI {
 										if tv, ok := p.TypesInfo.Types[val]; ok {
@@ -368,14 +402,29 @@ func runC03(c *Ctx) {
 			c.fail("D1", construct, tpos, "event type has no table entry: events of this type can never be opened, or are handled outside the checked path")
 			continue
 		}
-		if e.Checker == nil {
+		if e.Checker == nil || len(e.Checkers) == 0 {
 			c.fail("D1", construct, e.Pos, "entry has no statically resolvable checker function")
 			continue
 		}
-		fn := w.Prog.FuncValue(e.Checker)
-		checkerFns[fn] = true
-		c.analysed(fn)
-		kinds := kindsString(checkerKinds(w, fn, memo, &whys))
+		union := map[string]bool{}
+		unresolved := false
+		for _, cf := range e.Checkers {
+			if cf == nil {
+				unresolved = true
+				continue
+			}
+			fn := w.Prog.FuncValue(cf)
+			checkerFns[fn] = true
+			c.analysed(fn)
+			for k := range checkerKinds(w, fn, memo, &whys) {
+				union[k] = true
+			}
+		}
+		if unresolved {
+			c.fail("D1", construct, e.Pos, "entry lists a checker that is not a statically resolvable function")
+			continue
+		}
+		kinds := kindsString(union)
 		want := "device"
 		switch {
 		case strings.HasSuffix(k.Name(), "GroupMemberDeviceAdded"):
